@@ -8,7 +8,7 @@ rsync -a --exclude .git --exclude '__pycache__' /repo/ "$D/"
 cd "$(dirname "$0")/.."
 for c in "$@"; do
   echo "== $c on $(basename $PATCH)"
-  VERIF_REPO="$D" ./check "$c" "$TIER" 2>&1 | grep -v "^KNOWN-FINDING" | tail -4
+  VERIF_REPO="$D" VERIF_OUT="$D/_out" ./check "$c" "$TIER" 2>&1 | grep -v "^KNOWN-FINDING" | tail -4
   echo "rc=${PIPESTATUS[0]}"
 done
 rm -rf "$D"
